@@ -266,6 +266,65 @@ Proof.
   - pose proof alloc_fuel_enough. lia.
 Qed.
 
+Lemma alloc_loop_ext fuel u1 u2 start : (forall k, u1 k = u2 k) ->
+  forall nxt, alloc_loop fuel u1 start nxt = alloc_loop fuel u2 start nxt.
+Proof.
+  intros Hu. induction fuel as [|f IH]; intros nxt; [reflexivity|]. rewrite !alloc_loop_unfold, Hu.
+  destruct (negb _); [reflexivity|]. destruct (N.eqb _ _); [reflexivity | apply IH].
+Qed.
+
+(* the reference scan from 1 says "full" exactly when every id in 1..65535 is in use *)
+Lemma some_id_free_false v s : some_id_free v s = false -> forall j, 0 < j < 65536 -> id_used v s j = true.
+Proof.
+  unfold some_id_free. intros Hf.
+  destruct (alloc_loop_complete (id_used v s) 1 ltac:(lia) alloc_fuel 1 ltac:(lia)) as (sid & n' & Ha & Hc).
+  - intros j Hj Hlt. unfold pos in Hlt. lia.
+  - pose proof alloc_fuel_enough. lia.
+  - rewrite Ha in Hf. destruct Hc as [[Hne _]|[_ Hall]]; [|exact Hall].
+    destruct sid; [contradiction | discriminate].
+Qed.
+Lemma some_id_free_true v s j : 0 < j < 65536 -> id_used v s j = false -> some_id_free v s = true.
+Proof.
+  intros Hj Hu. destruct (some_id_free v s) eqn:E; [reflexivity|].
+  rewrite (some_id_free_false _ _ E j Hj) in Hu. discriminate.
+Qed.
+
+(* whatever way the id is resolved (HEAD's counter, or an observed admissible choice): 0, or an id in
+   1..65535 that is neither indexed nor reserved *)
+Lemma alloc_choice_sound v s oc sid n' : 0 < norm_next v (next s) < 65536 -> next s < 65536 ->
+  alloc_choice v s oc = Ok (sid, n') ->
+  n' < 65536 /\ (sid = 0 \/ (id_used v s sid = false /\ 0 < sid < 65536)).
+Proof.
+  intros Hn Hnx. destruct oc as [| |c]; cbn [alloc_choice].
+  - intros Ha. apply allocate_sound in Ha; [|exact Hn]. destruct Ha as [Hn' Hs]. split; [lia | exact Hs].
+  - destruct (some_id_free v s); [discriminate|]. intros Hx; inversion Hx; subst. auto.
+  - destruct (N.ltb_spec 0 c); cbn [andb]; [|discriminate]. destruct (N.ltb_spec c 65536); cbn [andb]; [|discriminate].
+    destruct (id_used v s c) eqn:Eu; cbn [negb]; [discriminate|]. intros Hx; inversion Hx; subst. split; [exact Hnx|].
+    right. split; [exact Eu | lia].
+Qed.
+
+(* HEAD's policy is one of the admissible choices: what the counter scan returns is accepted as an observed
+   answer too (same id; the refusal exactly when nothing is free) *)
+Lemma policy_is_admissible v s sid n' : 0 < norm_next v (next s) < 65536 -> allocate v s = Ok (sid, n') ->
+  (sid <> 0 -> alloc_choice v s (Chose sid) = Ok (sid, next s)) /\
+  (sid = 0 -> alloc_choice v s Refused = Ok (0, next s)).
+Proof.
+  intros Hn Ha. pose proof (allocate_sound _ _ _ _ Hn Ha) as [_ Hs]. split.
+  - intros Hne. destruct Hs as [?|[Hu Hr]]; [contradiction|]. cbn [alloc_choice].
+    destruct (N.ltb_spec 0 sid); [|lia]. destruct (N.ltb_spec sid 65536); [|lia]. rewrite Hu. reflexivity.
+  - intros ->. cbn [alloc_choice]. destruct (some_id_free v s) eqn:E; [|reflexivity]. exfalso.
+    destruct (allocate_complete v s Hn) as (sid & n2 & Ha2 & Hc). rewrite Ha in Ha2. inversion Ha2; subst.
+    destruct Hc as [[Hne _]|[_ Hall]]; [contradiction|].
+    unfold some_id_free in E.
+    destruct (alloc_loop_complete (id_used v s) 1 ltac:(lia) alloc_fuel 1 ltac:(lia)) as (sid & n3 & Ha3 & Hc3).
+    + intros j Hj Hlt. unfold pos in Hlt. lia.
+    + pose proof alloc_fuel_enough. lia.
+    + rewrite Ha3 in E. destruct Hc3 as [[Hne Hf]|[-> _]]; [|discriminate].
+      assert (H11 : 0 < 1 < 65536) by lia.
+      pose proof (alloc_loop_sound alloc_fuel (id_used v s) 1 1 sid n3 H11 Ha3) as [_ [?|[_ Hr]]]; [contradiction|].
+      rewrite (Hall sid Hr) in Hf. discriminate.
+Qed.
+
 Lemma id_used_false v s k : id_used v s k = false ->
   by_sid s !! k = None /\ (v_reserve v = true -> forall x, In x (pend s) -> s_sid x <> k).
 Proof.
@@ -286,25 +345,29 @@ Proof.
 Qed.
 
 (* ------------------------------------------------------------------ handlePADR up to the allocation *)
-Lemma padr_begin_cases v e s t p r : padr_begin v e s t p = Some r ->
+Lemma padr_begin_cases v e s t p oc r : padr_begin v e s t p oc = Some r ->
   r = (s, None) \/
   exists tg sid n', parse_tags p = Ok tg /\
     validate (e_H e) (e_ttl e) (e_now_ns e) (t_cookie tg) t = true /\ e_grp e t = true /\
-    allocate v s = Ok (sid, n') /\
-    ((v_sid_guard v && N.eqb sid 0 = true /\ r = (set_next s n', None)) \/
-     (v_sid_guard v && N.eqb sid 0 = false /\
+    alloc_choice v s oc = Ok (sid, n') /\
+    ((sid = 0 /\ r = (set_next s n', None)) \/
+     ((oc = Policy -> v_sid_guard v && N.eqb sid 0 = false) /\ (oc <> Policy -> sid <> 0) /\
       r = (bump_ctr (set_next s n'), Some {| s_uid := ctr s; s_sid := sid; s_tup := t |}))).
 Proof.
   unfold padr_begin. destruct (parse_tags p) as [tg|?| |]; try discriminate.
   - destruct (validate _ _ _ _ _) eqn:Ev; simpl; [|intros Hx; inversion Hx; auto].
     destruct (e_grp e t) eqn:Eg; simpl; [|intros Hx; inversion Hx; auto].
-    destruct (allocate v s) as [[sid n']|?| |] eqn:Ea; try discriminate.
-    destruct (v_sid_guard v && N.eqb sid 0) eqn:Eg0; intros Hx; inversion Hx; subst; right;
-      exists tg, sid, n'; repeat split; auto.
+    destruct (alloc_choice v s oc) as [[sid n']|?| |] eqn:Ea; try discriminate.
+    destruct ((v_sid_guard v || negb match oc with Policy => true | _ => false end) && N.eqb sid 0) eqn:Eg0;
+      intros Hx; inversion Hx; subst; right; exists tg, sid, n'; repeat split; auto.
+    + left. apply andb_true_iff in Eg0 as [_ Hz]. apply N.eqb_eq in Hz. auto.
+    + right. repeat split.
+      * intros ->. simpl in Eg0. rewrite orb_false_r in Eg0. exact Eg0.
+      * intros Hne He. subst sid. destruct oc; [contradiction| |]; simpl in Eg0; rewrite orb_true_r in Eg0; discriminate.
   - intros Hx; inversion Hx; auto.
 Qed.
 
-Lemma padr_begin_novalid v e s t p r : padr_begin v e s t p = Some r ->
+Lemma padr_begin_novalid v e s t p oc r : padr_begin v e s t p oc = Some r ->
   (forall tg, parse_tags p = Ok tg -> validate (e_H e) (e_ttl e) (e_now_ns e) (t_cookie tg) t = false) ->
   r = (s, None).
 Proof.
@@ -312,12 +375,12 @@ Proof.
   rewrite (Hv tg Hp) in Hval. discriminate.
 Qed.
 
-Lemma padr_begin_frame v e s t p s1 ox : padr_begin v e s t p = Some (s1, ox) ->
+Lemma padr_begin_frame v e s t p oc s1 ox : padr_begin v e s t p oc = Some (s1, ox) ->
   by_sid s1 = by_sid s /\ by_tup s1 = by_tup s /\ by_uidx s1 = by_uidx s /\ by_attr s1 = by_attr s /\
   attr_of s1 = attr_of s /\ pend s1 = pend s /\
   match ox with Some x => s_tup x = t /\ s_uid x = ctr s /\ ctr s1 = N.succ (ctr s) | None => True end.
 Proof.
-  intros Hb. apply padr_begin_cases in Hb as [Hx|(tg & sid & n' & _ & _ & _ & _ & [[_ Hx]|[_ Hx]])];
+  intros Hb. apply padr_begin_cases in Hb as [Hx|(tg & sid & n' & _ & _ & _ & _ & [[_ Hx]|(_ & _ & Hx)])];
     inversion Hx; subst; simpl; repeat split; auto.
 Qed.
 
@@ -477,7 +540,7 @@ Qed.
 (* the variants for which the invariant is inductive over every interleaving *)
 Definition reserving (v : variant) : Prop := v_sid_guard v = true /\ v_reserve v = true /\ v_ha_check v = true.
 
-Lemma padr_begin_Inv v e s t p s1 ox : reserving v -> Inv s -> padr_begin v e s t p = Some (s1, ox) ->
+Lemma padr_begin_Inv v e s t p oc s1 ox : reserving v -> Inv s -> padr_begin v e s t p oc = Some (s1, ox) ->
   Inv s1 /\ pend s1 = pend s /\
   match ox with
   | None => True
@@ -488,11 +551,14 @@ Lemma padr_begin_Inv v e s t p s1 ox : reserving v -> Inv s -> padr_begin v e s 
 Proof.
   intros (Hg & Hr & _) HI Hb. apply padr_begin_cases in Hb as [Hx|(tg & sid & n' & _ & _ & _ & Ha & Hc)].
   - inversion Hx; subst. auto.
-  - apply allocate_sound in Ha; [|apply norm_next_range; [exact Hg | apply HI]]. destruct Ha as [Hn' Hsid].
-    destruct Hc as [[_ Hx]|[Hz Hx]]; inversion Hx; subst.
+  - apply alloc_choice_sound in Ha; [|apply norm_next_range; [exact Hg | apply HI] | apply HI]. destruct Ha as [Hn' Hsid].
+    destruct Hc as [[_ Hx]|(Hz1 & Hz2 & Hx)]; inversion Hx; subst.
     + split; [apply Inv_set_next; [exact HI | lia] | auto].
     + split; [apply Inv_bump, Inv_set_next; [exact HI | lia]|]. split; [reflexivity|]. simpl.
-      rewrite Hg in Hz. simpl in Hz. apply N.eqb_neq in Hz. destruct Hsid as [?|[Hu Hrg]]; [contradiction|].
+      assert (Hz : sid <> 0).
+      { destruct oc as [| |c]; [|apply Hz2; discriminate|apply Hz2; discriminate].
+        specialize (Hz1 eq_refl). rewrite Hg in Hz1. simpl in Hz1. apply N.eqb_neq in Hz1. exact Hz1. }
+      destruct Hsid as [?|[Hu Hrg]]; [contradiction|].
       apply id_used_false in Hu as [Hu1 Hu2].
       split; [exact Hu1|]. split; [exact Hrg|]. split; [lia|]. split; [|split; [reflexivity|]].
       * destruct (by_uidx s !! ctr s) as [y|] eqn:E; [|reflexivity]. destruct (inv_uidx _ HI _ _ E). lia.
@@ -501,13 +567,13 @@ Qed.
 
 Lemma step_Inv v e s o s' r : reserving v -> Inv s -> step v e s o = Some (s', r) -> Inv s'.
 Proof.
-  intros Hv HI Hs. destruct o as [t|t p|t p|u|t sid|t sid|t sid a|sid|sid t a|sid t a|n]; simpl in Hs.
+  intros Hv HI Hs. destruct o as [t|t p oc|t p oc|u|t sid|t sid|t sid a|sid|sid t a|sid t a|n]; simpl in Hs.
   - destruct (e_grp e t); inversion Hs; subst; exact HI.
-  - destruct (padr_begin v e s t p) as [[s1 [x|]]|] eqn:Eb; inversion Hs; subst;
-      destruct (padr_begin_Inv _ _ _ _ _ _ _ Hv HI Eb) as (HI1 & Hp & Hx); [|exact HI1].
+  - destruct (padr_begin v e s t p oc) as [[s1 [x|]]|] eqn:Eb; inversion Hs; subst;
+      destruct (padr_begin_Inv _ _ _ _ _ _ _ _ Hv HI Eb) as (HI1 & Hp & Hx); [|exact HI1].
     destruct Hx as (X1 & X2 & X3 & X4 & _ & X6). apply Inv_add; auto.
-  - destruct (padr_begin v e s t p) as [[s1 [x|]]|] eqn:Eb; inversion Hs; subst;
-      destruct (padr_begin_Inv _ _ _ _ _ _ _ Hv HI Eb) as (HI1 & Hp & Hx); [|exact HI1].
+  - destruct (padr_begin v e s t p oc) as [[s1 [x|]]|] eqn:Eb; inversion Hs; subst;
+      destruct (padr_begin_Inv _ _ _ _ _ _ _ _ Hv HI Eb) as (HI1 & Hp & Hx); [|exact HI1].
     destruct Hx as (X1 & X2 & X3 & X4 & _ & X6). destruct HI1 as [A B C D E F G H]. split; simpl; auto.
     + intros y Hy. apply in_app_or in Hy as [Hy|[<-|[]]]; auto.
     + rewrite map_app. simpl. apply NoDup_app. split; [exact G|]. split; [|repeat constructor; intros []%elem_of_nil].
@@ -616,7 +682,7 @@ Proof. intros Hv Hr. apply sid_distinct_nonzero_inv. eapply run_Inv; [exact Hv |
 (* ------------------------------------------------------------------ isolation *)
 Definition sender (o : op) : option tuple :=
   match o with
-  | PADI t | PADR t _ | PBEGIN t _ | PADT t _ | SESS t _ | SETATTR t _ _ => Some t
+  | PADI t | PADR t _ _ | PBEGIN t _ _ | PADT t _ | SESS t _ | SETATTR t _ _ => Some t
   | _ => None
   end.
 
@@ -649,12 +715,12 @@ Proof.
      (forall u, r = OTerm u \/ r = OReach u -> exists x, live s x /\ s_uid x = u /\ s_tup x = t)).
   { intros s1 E1 E2 E3 Hr ->. rewrite E1, E2, E3. repeat split; auto.
     intros u Hu. exfalso. destruct Hu as [Hu|Hu]; destruct (Hr u); congruence. }
-  destruct o as [t0|t0 p|t0 p|u|t0 sid|t0 sid|t0 sid a|sid|sid t0 a|sid t0 a|n]; simpl in Hsnd; inversion Hsnd; subst t0;
+  destruct o as [t0|t0 p oc|t0 p oc|u|t0 sid|t0 sid|t0 sid a|sid|sid t0 a|sid t0 a|n]; simpl in Hsnd; inversion Hsnd; subst t0;
     simpl in Hs.
   - destruct (e_grp e t); inversion Hs; subst; eapply Hsame; eauto; intros u; split; discriminate.
-  - destruct (padr_begin v e s t p) as [[s1 [x|]]|] eqn:Eb; inversion Hs; subst.
-    + destruct (padr_begin_Inv _ _ _ _ _ _ _ Hv HI Eb) as (HI1 & Hp & X1 & X2 & X3 & X4 & X5 & X6).
-      destruct (padr_begin_frame _ _ _ _ _ _ _ Eb) as (E1 & E2 & E3 & E4 & E5 & E6 & E7 & _).
+  - destruct (padr_begin v e s t p oc) as [[s1 [x|]]|] eqn:Eb; inversion Hs; subst.
+    + destruct (padr_begin_Inv _ _ _ _ _ _ _ _ Hv HI Eb) as (HI1 & Hp & X1 & X2 & X3 & X4 & X5 & X6).
+      destruct (padr_begin_frame _ _ _ _ _ _ _ _ Eb) as (E1 & E2 & E3 & E4 & E5 & E6 & E7 & _).
       simpl. rewrite E1, E2, E6 in *. repeat split.
       * intros k y Hk _. rewrite lookup_insert_ne; [exact Hk|]. intros <-. congruence.
       * intros t' Hne'. rewrite lookup_insert_ne; congruence.
@@ -663,14 +729,14 @@ Proof.
         -- rewrite lookup_insert_ne in Hk by exact Hnk. left; exact Hk.
       * auto.
       * intros u [?|?]; discriminate.
-    + destruct (padr_begin_frame _ _ _ _ _ _ _ Eb) as (E1 & E2 & E3 & E4 & E5 & E6 & _).
+    + destruct (padr_begin_frame _ _ _ _ _ _ _ _ Eb) as (E1 & E2 & E3 & E4 & E5 & E6 & _).
       apply (Hsame _ E1 E2 E6); [intros u; split; discriminate | reflexivity].
-  - destruct (padr_begin v e s t p) as [[s1 [x|]]|] eqn:Eb; inversion Hs; subst.
-    + destruct (padr_begin_frame _ _ _ _ _ _ _ Eb) as (E1 & E2 & E3 & E4 & E5 & E6 & E7 & _).
+  - destruct (padr_begin v e s t p oc) as [[s1 [x|]]|] eqn:Eb; inversion Hs; subst.
+    + destruct (padr_begin_frame _ _ _ _ _ _ _ _ Eb) as (E1 & E2 & E3 & E4 & E5 & E6 & E7 & _).
       simpl. rewrite E1, E2, E6. repeat split; auto.
       * intros y Hy. apply in_app_or in Hy as [Hy|[<-|[]]]; auto.
       * intros u [?|?]; discriminate.
-    + destruct (padr_begin_frame _ _ _ _ _ _ _ Eb) as (E1 & E2 & E3 & E4 & E5 & E6 & _).
+    + destruct (padr_begin_frame _ _ _ _ _ _ _ _ Eb) as (E1 & E2 & E3 & E4 & E5 & E6 & _).
       apply (Hsame _ E1 E2 E6); [intros u; split; discriminate | reflexivity].
   - destruct (by_sid s !! sid) as [x|] eqn:El;
       [|inversion Hs; subst; eapply Hsame; eauto; intros u; split; discriminate].
@@ -713,17 +779,17 @@ Proof.
      (attr_of s' = attr_of s \/
       exists sid x a, by_sid s !! sid = Some x /\ s_tup x = t /\ attr_of s' = <[ s_uid x := a ]> (attr_of s))).
   { intros s1 E1 E2 E3 ->. rewrite E1, E2, E3. auto. }
-  destruct o as [t0|t0 p|t0 p|u|t0 sid|t0 sid|t0 sid a|sid|sid t0 a|sid t0 a|n]; simpl in Hsnd; inversion Hsnd; subst t0;
+  destruct o as [t0|t0 p oc|t0 p oc|u|t0 sid|t0 sid|t0 sid a|sid|sid t0 a|sid t0 a|n]; simpl in Hsnd; inversion Hsnd; subst t0;
     simpl in Hs.
   - destruct (e_grp e t); inversion Hs; subst; eapply Hsame; eauto.
-  - destruct (padr_begin v e s t p) as [[s1 [x|]]|] eqn:Eb; inversion Hs; subst.
-    + destruct (padr_begin_frame _ _ _ _ _ _ _ Eb) as (E1 & E2 & E3 & E4 & E5 & E6 & E7 & E8 & _).
+  - destruct (padr_begin v e s t p oc) as [[s1 [x|]]|] eqn:Eb; inversion Hs; subst.
+    + destruct (padr_begin_frame _ _ _ _ _ _ _ _ Eb) as (E1 & E2 & E3 & E4 & E5 & E6 & E7 & E8 & _).
       simpl. rewrite E3, E4, E5. repeat split; auto.
       intros k y Hk _. rewrite lookup_insert_ne; [exact Hk|]. intros <-. destruct (inv_uidx _ HI _ _ Hk). lia.
-    + destruct (padr_begin_frame _ _ _ _ _ _ _ Eb) as (E1 & E2 & E3 & E4 & E5 & E6 & _).
+    + destruct (padr_begin_frame _ _ _ _ _ _ _ _ Eb) as (E1 & E2 & E3 & E4 & E5 & E6 & _).
       apply (Hsame _ E3 E4 E5). reflexivity.
-  - destruct (padr_begin v e s t p) as [[s1 ox]|] eqn:Eb; [|discriminate].
-    destruct (padr_begin_frame _ _ _ _ _ _ _ Eb) as (E1 & E2 & E3 & E4 & E5 & E6 & _).
+  - destruct (padr_begin v e s t p oc) as [[s1 ox]|] eqn:Eb; [|discriminate].
+    destruct (padr_begin_frame _ _ _ _ _ _ _ _ Eb) as (E1 & E2 & E3 & E4 & E5 & E6 & _).
     destruct ox; inversion Hs; subst; (eapply Hsame; [| | |reflexivity]; simpl; auto).
   - destruct (by_sid s !! sid) as [x|] eqn:El; [|inversion Hs; subst; eapply Hsame; eauto].
     destruct (owner_ok v x t) eqn:Eo; inversion Hs; subst; [|eapply Hsame; eauto].
@@ -799,44 +865,44 @@ Proof.
 Qed.
 
 (* ------------------------------------------------------------------ admission *)
-Lemma padr_needs_cookie v e s t p s' sid uid : step v e s (PADR t p) = Some (s', OPads sid uid) ->
+Lemma padr_needs_cookie v e s t p oc s' sid uid : step v e s (PADR t p oc) = Some (s', OPads sid uid) ->
   exists tg, parse_tags p = Ok tg /\
     validate (e_H e) (e_ttl e) (e_now_ns e) (t_cookie tg) t = true /\ e_grp e t = true.
 Proof.
-  simpl. destruct (padr_begin v e s t p) as [[s1 [x|]]|] eqn:Eb; try discriminate. intros _.
+  simpl. destruct (padr_begin v e s t p oc) as [[s1 [x|]]|] eqn:Eb; try discriminate. intros _.
   apply padr_begin_cases in Eb as [Hx|(tg & sid' & n' & Hp & Hv & Hg & _)]; [inversion Hx|]. eauto.
 Qed.
 
 (* the same for the first half of an interleaved PADR *)
-Lemma pbegin_needs_cookie v e s t p s' sid uid : step v e s (PBEGIN t p) = Some (s', OPend sid uid) ->
+Lemma pbegin_needs_cookie v e s t p oc s' sid uid : step v e s (PBEGIN t p oc) = Some (s', OPend sid uid) ->
   exists tg, parse_tags p = Ok tg /\
     validate (e_H e) (e_ttl e) (e_now_ns e) (t_cookie tg) t = true /\ e_grp e t = true.
 Proof.
-  simpl. destruct (padr_begin v e s t p) as [[s1 [x|]]|] eqn:Eb; try discriminate. intros _.
+  simpl. destruct (padr_begin v e s t p oc) as [[s1 [x|]]|] eqn:Eb; try discriminate. intros _.
   apply padr_begin_cases in Eb as [Hx|(tg & sid' & n' & Hp & Hv & Hg & _)]; [inversion Hx|]. eauto.
 Qed.
 
-Lemma padr_rejected_no_state v e s t p s' r : step v e s (PADR t p) = Some (s', r) ->
+Lemma padr_rejected_no_state v e s t p oc s' r : step v e s (PADR t p oc) = Some (s', r) ->
   (forall tg, parse_tags p = Ok tg -> validate (e_H e) (e_ttl e) (e_now_ns e) (t_cookie tg) t = false) ->
   s' = s /\ r = ONone.
 Proof.
-  simpl. destruct (padr_begin v e s t p) as [[s1 ox]|] eqn:Eb; [|discriminate]. intros Hs Hv.
-  pose proof (padr_begin_novalid _ _ _ _ _ _ Eb Hv) as Hx. inversion Hx; subst. inversion Hs; auto.
+  simpl. destruct (padr_begin v e s t p oc) as [[s1 ox]|] eqn:Eb; [|discriminate]. intros Hs Hv.
+  pose proof (padr_begin_novalid _ _ _ _ _ _ _ Eb Hv) as Hx. inversion Hx; subst. inversion Hs; auto.
 Qed.
 
-Lemma pbegin_rejected_no_state v e s t p s' r : step v e s (PBEGIN t p) = Some (s', r) ->
+Lemma pbegin_rejected_no_state v e s t p oc s' r : step v e s (PBEGIN t p oc) = Some (s', r) ->
   (forall tg, parse_tags p = Ok tg -> validate (e_H e) (e_ttl e) (e_now_ns e) (t_cookie tg) t = false) ->
   s' = s /\ r = ONone.
 Proof.
-  simpl. destruct (padr_begin v e s t p) as [[s1 ox]|] eqn:Eb; [|discriminate]. intros Hs Hv.
-  pose proof (padr_begin_novalid _ _ _ _ _ _ Eb Hv) as Hx. inversion Hx; subst. inversion Hs; auto.
+  simpl. destruct (padr_begin v e s t p oc) as [[s1 ox]|] eqn:Eb; [|discriminate]. intros Hs Hv.
+  pose proof (padr_begin_novalid _ _ _ _ _ _ _ Eb Hv) as Hx. inversion Hx; subst. inversion Hs; auto.
 Qed.
 
 (* every session object that becomes alive (indexed, or built and waiting to be indexed) was created by a PADR
    whose cookie validated (PADR / PBEGIN), or restored *)
 Lemma step_new_alive v e s o s' r x : step v e s o = Some (s', r) -> alive s' x ->
-  alive s x \/ (exists p, (o = PADR (s_tup x) p /\ r = OPads (s_sid x) (s_uid x)) \/
-                          (o = PBEGIN (s_tup x) p /\ r = OPend (s_sid x) (s_uid x))) \/
+  alive s x \/ (exists p oc, (o = PADR (s_tup x) p oc /\ r = OPads (s_sid x) (s_uid x)) \/
+                             (o = PBEGIN (s_tup x) p oc /\ r = OPend (s_sid x) (s_uid x))) \/
   (exists a, o = RESTORE (s_sid x) (s_tup x) a \/ o = HASYNC (s_sid x) (s_tup x) a).
 Proof.
   assert (Hadd : forall a y s0, live (add_indexes a y s0) x -> live s0 x \/ x = y).
@@ -851,24 +917,24 @@ Proof.
   { intros y s0 [[k Hk]|[t Ht]]; simpl in *.
     - apply del_ifN_sub in Hk. left; eauto.
     - apply del_if_sub in Ht. right; eauto. }
-  intros Hs Hl. destruct o as [t|t p|t p|u|t sid|t sid|t sid a|sid|sid t a|sid t a|n]; simpl in Hs.
+  intros Hs Hl. destruct o as [t|t p oc|t p oc|u|t sid|t sid|t sid a|sid|sid t a|sid t a|n]; simpl in Hs.
   - destruct (e_grp e t); inversion Hs; subst; auto.
-  - destruct (padr_begin v e s t p) as [[s1 ox]|] eqn:Eb; [|discriminate].
-    destruct (padr_begin_frame _ _ _ _ _ _ _ Eb) as (E1 & E2 & E3 & E4 & E5 & E6 & E7).
+  - destruct (padr_begin v e s t p oc) as [[s1 ox]|] eqn:Eb; [|discriminate].
+    destruct (padr_begin_frame _ _ _ _ _ _ _ _ Eb) as (E1 & E2 & E3 & E4 & E5 & E6 & E7).
     assert (Hl1 : forall z, live s1 z -> live s z) by (intros z; unfold live; rewrite E1, E2; auto).
     destruct ox as [y|]; inversion Hs; subst.
     + destruct Hl as [Hl|Hl].
-      * apply Hadd in Hl as [Hl| ->]; [left; left; auto|]. destruct E7 as (<- & _). right; left. exists p. auto.
+      * apply Hadd in Hl as [Hl| ->]; [left; left; auto|]. destruct E7 as (<- & _). right; left. exists p, oc. auto.
       * simpl in Hl. rewrite E6 in Hl. left; right; exact Hl.
     + destruct Hl as [Hl|Hl]; [left; left; auto | rewrite E6 in Hl; left; right; exact Hl].
-  - destruct (padr_begin v e s t p) as [[s1 ox]|] eqn:Eb; [|discriminate].
-    destruct (padr_begin_frame _ _ _ _ _ _ _ Eb) as (E1 & E2 & E3 & E4 & E5 & E6 & E7).
+  - destruct (padr_begin v e s t p oc) as [[s1 ox]|] eqn:Eb; [|discriminate].
+    destruct (padr_begin_frame _ _ _ _ _ _ _ _ Eb) as (E1 & E2 & E3 & E4 & E5 & E6 & E7).
     assert (Hl1 : forall z, live s1 z -> live s z) by (intros z; unfold live; rewrite E1, E2; auto).
     destruct ox as [y|]; inversion Hs; subst.
     + destruct Hl as [Hl|Hl].
       * left; left. apply Hl1. exact Hl.
       * simpl in Hl. rewrite E6 in Hl. apply in_app_or in Hl as [Hl|[<-|[]]]; [left; right; exact Hl|].
-        destruct E7 as (<- & _). right; left. exists p. auto.
+        destruct E7 as (<- & _). right; left. exists p, oc. auto.
     + destruct Hl as [Hl|Hl]; [left; left; auto | rewrite E6 in Hl; left; right; exact Hl].
   - destruct (take_pend u (pend s)) as [[y rest]|] eqn:Et; [|discriminate]. inversion Hs; subst.
     apply take_pend_perm in Et as [Hperm _]. left. destruct Hl as [Hl|Hl].
@@ -903,7 +969,7 @@ Qed.
 Lemma padr_creates_when_room v e s t p tg : reserving v -> Inv s -> parse_tags p = Ok tg ->
   validate (e_H e) (e_ttl e) (e_now_ns e) (t_cookie tg) t = true -> e_grp e t = true ->
   (exists j, 0 < j < 65536 /\ id_used v s j = false) ->
-  exists s' sid, step v e s (PADR t p) = Some (s', OPads sid (ctr s)) /\ 0 < sid < 65536 /\
+  exists s' sid, step v e s (PADR t p Policy) = Some (s', OPads sid (ctr s)) /\ 0 < sid < 65536 /\
     id_used v s sid = false /\ by_sid s' !! sid = Some {| s_uid := ctr s; s_sid := sid; s_tup := t |}.
 Proof.
   intros (Hg & Hr & _) HI Hp Hv Hgr (j & Hj & Hfree). simpl. unfold padr_begin. rewrite Hp, Hv, Hgr. simpl.
@@ -915,25 +981,62 @@ Proof.
   eexists _, sid. split; [reflexivity|]. split; [exact Hrg|]. split; [exact Hf|]. simpl. apply lookup_insert.
 Qed.
 
-Lemma padr_full_repaired v e s t p s' r : reserving v -> Inv s -> (forall j, 0 < j < 65536 -> id_used v s j = true) ->
-  step v e s (PADR t p) = Some (s', r) ->
+Lemma padr_full_repaired v e s t p oc s' r : reserving v -> Inv s -> (forall j, 0 < j < 65536 -> id_used v s j = true) ->
+  step v e s (PADR t p oc) = Some (s', r) ->
   r = ONone /\ by_sid s' = by_sid s /\ by_tup s' = by_tup s /\ pend s' = pend s.
 Proof.
-  intros (Hg & Hr & _) HI Hall. simpl. destruct (padr_begin v e s t p) as [[s1 ox]|] eqn:Eb; [|discriminate].
-  destruct (padr_begin_frame _ _ _ _ _ _ _ Eb) as (E1 & E2 & _ & _ & _ & E6 & _).
+  intros (Hg & Hr & _) HI Hall. simpl. destruct (padr_begin v e s t p oc) as [[s1 ox]|] eqn:Eb; [|discriminate].
+  destruct (padr_begin_frame _ _ _ _ _ _ _ _ Eb) as (E1 & E2 & _ & _ & _ & E6 & _).
   apply padr_begin_cases in Eb as [Hx|(tg & sid & n' & _ & _ & _ & Ha & Hc)].
   - inversion Hx; subst. intros Hs; inversion Hs; auto.
-  - apply allocate_sound in Ha; [|apply norm_next_range; [exact Hg | apply HI]]. destruct Ha as [_ [->|[Hf Hrg]]].
-    + destruct Hc as [[_ Hx]|[Hz _]]; [|rewrite Hg in Hz; discriminate]. inversion Hx; subst.
-      intros Hs; inversion Hs; auto.
+  - apply alloc_choice_sound in Ha; [|apply norm_next_range; [exact Hg | apply HI] | apply HI].
+    destruct Ha as [_ [->|[Hf Hrg]]].
+    + destruct Hc as [[_ Hx]|(Hz1 & Hz2 & _)].
+      * inversion Hx; subst. intros Hs; inversion Hs; auto.
+      * exfalso. destruct oc as [| |c]; [|apply Hz2; [discriminate | reflexivity]|apply Hz2; [discriminate | reflexivity]].
+        specialize (Hz1 eq_refl). rewrite Hg in Hz1. discriminate.
     + rewrite (Hall sid Hrg) in Hf. discriminate.
+Qed.
+
+(* every admissible observed choice is installed ... *)
+Lemma padr_chosen v e s t p tg c : parse_tags p = Ok tg ->
+  validate (e_H e) (e_ttl e) (e_now_ns e) (t_cookie tg) t = true -> e_grp e t = true ->
+  0 < c < 65536 -> id_used v s c = false ->
+  exists s', step v e s (PADR t p (Chose c)) = Some (s', OPads c (ctr s)) /\
+    by_sid s' !! c = Some {| s_uid := ctr s; s_sid := c; s_tup := t |}.
+Proof.
+  intros Hp Hv Hgr Hc Hu. cbn [step]. unfold padr_begin. rewrite Hp, Hv, Hgr. cbn [negb alloc_choice].
+  destruct (N.ltb_spec 0 c); [|lia]. destruct (N.ltb_spec c 65536); [|lia]. rewrite Hu. cbn [andb negb].
+  destruct (N.eqb_spec c 0); [lia|]. rewrite andb_false_r.
+  eexists. split; [reflexivity|]. simpl. apply lookup_insert.
+Qed.
+
+(* ... an inadmissible one (0, out of range, indexed or reserved id) is not a step of the model at all, and a
+   refusal is one only when no id is free *)
+Lemma padr_choice_inadmissible v e s t p tg c : parse_tags p = Ok tg ->
+  validate (e_H e) (e_ttl e) (e_now_ns e) (t_cookie tg) t = true -> e_grp e t = true ->
+  c = 0 \/ 65536 <= c \/ id_used v s c = true -> step v e s (PADR t p (Chose c)) = None.
+Proof.
+  intros Hp Hv Hgr Hc. cbn [step]. unfold padr_begin. rewrite Hp, Hv, Hgr. cbn [negb alloc_choice].
+  destruct Hc as [->|[Hc|Hc]].
+  - reflexivity.
+  - destruct (N.ltb_spec c 65536); [lia|]. rewrite andb_false_r. reflexivity.
+  - rewrite Hc. rewrite andb_false_r. reflexivity.
+Qed.
+
+Lemma padr_refusal_inadmissible v e s t p tg j : parse_tags p = Ok tg ->
+  validate (e_H e) (e_ttl e) (e_now_ns e) (t_cookie tg) t = true -> e_grp e t = true ->
+  0 < j < 65536 -> id_used v s j = false -> step v e s (PADR t p Refused) = None.
+Proof.
+  intros Hp Hv Hgr Hj Hu. cbn [step]. unfold padr_begin. rewrite Hp, Hv, Hgr. cbn [negb alloc_choice].
+  rewrite (some_id_free_true _ _ _ Hj Hu). reflexivity.
 Qed.
 
 (* the code as first found (no id-0 guard): with all 65535 ids in use a valid PADR is answered with session-id 0 *)
 Lemma padr_full_defective v e s t p tg : v_sid_guard v = false -> 0 < next s < 65536 ->
   (forall j, 0 < j < 65536 -> id_used v s j = true) ->
   parse_tags p = Ok tg -> validate (e_H e) (e_ttl e) (e_now_ns e) (t_cookie tg) t = true -> e_grp e t = true ->
-  exists s', step v e s (PADR t p) = Some (s', OPads 0 (ctr s)) /\
+  exists s', step v e s (PADR t p Policy) = Some (s', OPads 0 (ctr s)) /\
     by_sid s' !! 0 = Some {| s_uid := ctr s; s_sid := 0; s_tup := t |}.
 Proof.
   intros Hg Hn Hall Hp Hv Hgr. simpl. unfold padr_begin. rewrite Hp, Hv, Hgr. simpl.
@@ -956,7 +1059,7 @@ Lemma race_last_free_id v e s tA tB pA pB tgA tgB k :
   parse_tags pB = Ok tgB -> validate (e_H e) (e_ttl e) (e_now_ns e) (t_cookie tgB) tB = true -> e_grp e tB = true ->
   tA <> tB ->
   exists s4 x y,
-    run v e s [PBEGIN tA pA; PBEGIN tB pB; PCOMMIT (ctr s); PCOMMIT (N.succ (ctr s))] =
+    run v e s [PBEGIN tA pA Policy; PBEGIN tB pB Policy; PCOMMIT (ctr s); PCOMMIT (N.succ (ctr s))] =
       Some (s4, [OPend k (ctr s); OPend k (N.succ (ctr s)); OPads k (ctr s); OPads k (N.succ (ctr s))]) /\
     by_tup s4 !! tA = Some x /\ by_tup s4 !! tB = Some y /\ x <> y /\ s_sid x = k /\ s_sid y = k.
 Proof.
@@ -983,11 +1086,11 @@ Proof.
   set (s2 := set_pend (bump_ctr (set_next s1 n2)) [x; y]).
   set (s3 := add_indexes None x (set_pend s2 [y])).
   set (s4 := add_indexes None y (set_pend s3 [])).
-  assert (H1 : step v e s (PBEGIN tA pA) = Some (s1, OPend k (ctr s))).
-  { cbn [step]. unfold padr_begin. rewrite HpA, HvA, HgA. cbn [negb]. rewrite Ha1, Hkz.
+  assert (H1 : step v e s (PBEGIN tA pA Policy) = Some (s1, OPend k (ctr s))).
+  { cbn [step]. unfold padr_begin. rewrite HpA, HvA, HgA. cbn [negb alloc_choice orb]. rewrite Ha1, orb_false_r, Hkz.
     cbn [pend bump_ctr set_next]. rewrite Hpe. reflexivity. }
-  assert (H2 : step v e s1 (PBEGIN tB pB) = Some (s2, OPend k (N.succ (ctr s)))).
-  { cbn [step]. unfold padr_begin. rewrite HpB, HvB, HgB. cbn [negb]. rewrite Ha2, Hkz. reflexivity. }
+  assert (H2 : step v e s1 (PBEGIN tB pB Policy) = Some (s2, OPend k (N.succ (ctr s)))).
+  { cbn [step]. unfold padr_begin. rewrite HpB, HvB, HgB. cbn [negb alloc_choice orb]. rewrite Ha2, orb_false_r, Hkz. reflexivity. }
   assert (H3 : step v e s2 (PCOMMIT (ctr s)) = Some (s3, OPads k (ctr s))).
   { cbn [step pend s2 set_pend take_pend]. cbn [s_uid x]. rewrite N.eqb_refl. reflexivity. }
   assert (H4 : step v e s3 (PCOMMIT (N.succ (ctr s))) = Some (s4, OPads k (N.succ (ctr s)))).
@@ -1000,7 +1103,7 @@ Proof.
 Qed.
 
 (* ------------------------------------------------------------------ the unreserved variant equals the reserving one when PADRs do not overlap *)
-Definition no_overlap (o : op) : Prop := match o with PBEGIN _ _ | PCOMMIT _ => False | _ => True end.
+Definition no_overlap (o : op) : Prop := match o with PBEGIN _ _ _ | PCOMMIT _ => False | _ => True end.
 
 Lemma step_unreserved_eq e s o : pend s = [] -> no_overlap o -> step Unreserved e s o = step ReserveOnly e s o.
 Proof.
@@ -1012,18 +1115,21 @@ Proof.
     generalize alloc_fuel (norm_next ReserveOnly (next s)). intros f n0. generalize n0 at 2 4.
     induction f as [|f IH]; intros nxt; [reflexivity|]. rewrite !alloc_loop_unfold, Hu.
     destruct (negb _); [reflexivity|]. destruct (N.eqb _ _); [reflexivity | apply IH]. }
-  destruct o as [t|t p|t p|u|t sid|t sid|t sid a|sid|sid t a|sid t a|n]; try contradiction.
-  2: { cbn [step]. unfold padr_begin. rewrite Ha. reflexivity. }
+  destruct o as [t|t p oc|t p oc|u|t sid|t sid|t sid a|sid|sid t a|sid t a|n]; try contradiction.
+  2: { assert (Hc : alloc_choice Unreserved s oc = alloc_choice ReserveOnly s oc).
+       { destruct oc as [| |c]; cbn [alloc_choice]; [exact Ha | | rewrite Hu; reflexivity].
+         unfold some_id_free. rewrite (alloc_loop_ext _ _ _ 1 Hu). reflexivity. }
+       cbn [step]. unfold padr_begin. rewrite Hc. reflexivity. }
   7: { cbn [step]. rewrite Hu. reflexivity. }
   all: reflexivity.
 Qed.
 
 Lemma step_pend_nil v e s o s' r : pend s = [] -> no_overlap o -> step v e s o = Some (s', r) -> pend s' = [].
 Proof.
-  intros Hp Ho Hs. destruct o as [t|t p|t p|u|t sid|t sid|t sid a|sid|sid t a|sid t a|n]; try contradiction; simpl in Hs.
+  intros Hp Ho Hs. destruct o as [t|t p oc|t p oc|u|t sid|t sid|t sid a|sid|sid t a|sid t a|n]; try contradiction; simpl in Hs.
   - destruct (e_grp e t); inversion Hs; subst; auto.
-  - destruct (padr_begin v e s t p) as [[s1 ox]|] eqn:Eb; [|discriminate].
-    destruct (padr_begin_frame _ _ _ _ _ _ _ Eb) as (_ & _ & _ & _ & _ & E6 & _).
+  - destruct (padr_begin v e s t p oc) as [[s1 ox]|] eqn:Eb; [|discriminate].
+    destruct (padr_begin_frame _ _ _ _ _ _ _ _ Eb) as (_ & _ & _ & _ & _ & E6 & _).
     destruct ox; inversion Hs; subst; simpl; congruence.
   - destruct (by_sid s !! sid) as [x|]; [|inversion Hs; subst; auto].
     destruct (owner_ok v x t); inversion Hs; subst; auto.
@@ -1132,7 +1238,7 @@ Definition env0 : env :=
   {| e_H := toyH; e_ttl := 60000000000; e_now_s := 1000; e_now_ns := 1000500000000; e_grp := fun _ => true |}.
 Definition tA : tuple := ([2; 0; 0; 170; 0; 1], 100, 10).
 Definition tB : tuple := ([2; 0; 0; 187; 0; 2], 100, 10).
-Definition padr_of (t : tuple) : op := PADR t (add_tag TagACCookie (generate toyH 1000 t)).
+Definition padr_of (t : tuple) : op := PADR t (add_tag TagACCookie (generate toyH 1000 t)) Policy.
 
 Lemma tA_ne_tB : tA <> tB.
 Proof. discriminate. Qed.
@@ -1174,12 +1280,12 @@ Proof. vm_compute. reflexivity. Qed.
 (* ------------------------------------------------------------------ composites *)
 (* a PADS is sent / a session created only for a cookie this BNG issued for the same tuple
    within its lifetime (under the unforgeability premise on the HMAC) *)
-Lemma admission v e s t p s' sid uid issued :
+Lemma admission v e s t p oc s' sid uid issued :
   (* H_mac_unforgeable for the one (message, tag) pair this PADR presents *)
   (forall tg, parse_tags p = Ok tg -> firstn 32 (t_cookie tg) = e_H e (macd t (t_cookie tg)) ->
               In (macd t (t_cookie tg)) (map enc_issue issued)) ->
   Forall wf_issue issued -> wf_tuple t ->
-  step v e s (PADR t p) = Some (s', OPads sid uid) ->
+  step v e s (PADR t p oc) = Some (s', OPads sid uid) ->
   exists ts, In (t, ts) issued /\ (e_now_ns e - Z.of_N ts * ns_per_s <= e_ttl e)%Z.
 Proof.
   intros Hunf Hwf Hwt Hs. apply padr_needs_cookie in Hs as (tg & Hp & Hv & _).
@@ -1267,10 +1373,10 @@ Qed.
 
 (* PADR level: in ANY table state (any earlier history, including this very PADR having been answered
    before), a PADR whose cookie has outlived the lifetime creates nothing *)
-Lemma padr_expired_no_state v e s t p tg a b c4 d s' r :
+Lemma padr_expired_no_state v e s t p oc tg a b c4 d s' r :
   parse_tags p = Ok tg -> skipn 32 (t_cookie tg) = [a; b; c4; d] ->
   (e_ttl e < e_now_ns e - Z.of_N (be32 a b c4 d) * ns_per_s)%Z ->
-  step v e s (PADR t p) = Some (s', r) -> s' = s /\ r = ONone.
+  step v e s (PADR t p oc) = Some (s', r) -> s' = s /\ r = ONone.
 Proof.
   intros Hp Hs Hlt Hst. eapply padr_rejected_no_state; [exact Hst|].
   intros tg' Hp'. rewrite Hp in Hp'. inversion Hp'; subst tg'. destruct t as [[mac sv] cv].
@@ -1294,11 +1400,11 @@ Lemma admission_nonvacuous :
   (forall tg, parse_tags padrOne = Ok tg -> firstn 32 (t_cookie tg) = oneH (macd tA (t_cookie tg)) ->
               In (macd tA (t_cookie tg)) (map enc_issue [(tA, 1000)])) /\
   Forall wf_issue [(tA, 1000)] /\ wf_tuple tA /\
-  (exists s', step Repaired envOne st0 (PADR tA padrOne) = Some (s', OPads 1 0)) /\
+  (exists s', step Repaired envOne st0 (PADR tA padrOne Policy) = Some (s', OPads 1 0)) /\
   (* other messages have a different tag *)
   oneH (enc_issue (tB, 1000)) <> firstn 32 (generate oneH 1000 tA) /\
   (* and the same PADR from another tuple is refused *)
-  (exists s', step Repaired envOne st0 (PADR tB padrOne) = Some (s', ONone)).
+  (exists s', step Repaired envOne st0 (PADR tB padrOne Policy) = Some (s', ONone)).
 Proof.
   split.
   - intros tg Hp _.
@@ -1310,11 +1416,11 @@ Proof.
     eexists; vm_compute; reflexivity.
 Qed.
 
-Lemma admission_pend v e s t p s' sid uid issued :
+Lemma admission_pend v e s t p oc s' sid uid issued :
   (forall tg, parse_tags p = Ok tg -> firstn 32 (t_cookie tg) = e_H e (macd t (t_cookie tg)) ->
               In (macd t (t_cookie tg)) (map enc_issue issued)) ->
   Forall wf_issue issued -> wf_tuple t ->
-  step v e s (PBEGIN t p) = Some (s', OPend sid uid) ->
+  step v e s (PBEGIN t p oc) = Some (s', OPend sid uid) ->
   exists ts, In (t, ts) issued /\ (e_now_ns e - Z.of_N ts * ns_per_s <= e_ttl e)%Z.
 Proof.
   intros Hunf Hwf Hwt Hs. apply pbegin_needs_cookie in Hs as (tg & Hp & Hv & _).
@@ -1343,9 +1449,9 @@ Proof. vm_compute. split; [eexists; split; reflexivity | reflexivity]. Qed.
 
 (* every interleaving of two PADRs' halves with ids to spare, repaired: distinct ids *)
 Example interleaving_nonvacuous :
-  match run Repaired env0 st0 [PBEGIN tA (add_tag TagACCookie (generate toyH 1000 tA));
-                               PBEGIN tB (add_tag TagACCookie (generate toyH 1000 tB)); PCOMMIT 1; PCOMMIT 0] with
-  | Some (s, outs) => outs = [OPend 1 0; OPend 2 1; OPads 2 1; OPads 1 0] /\ pend s = []
+  match run Repaired env0 st0 [PBEGIN tA (add_tag TagACCookie (generate toyH 1000 tA)) Policy;
+                               PBEGIN tB (add_tag TagACCookie (generate toyH 1000 tB)) (Chose 7); PCOMMIT 1; PCOMMIT 0] with
+  | Some (s, outs) => outs = [OPend 1 0; OPend 7 1; OPads 7 1; OPads 1 0] /\ pend s = []
   | None => False
   end.
 Proof. vm_compute. split; reflexivity. Qed.
@@ -1456,3 +1562,26 @@ Example hasync_repaired :
   | None => False
   end.
 Proof. vm_compute. split; [reflexivity | eexists; split; reflexivity]. Qed.
+
+(* ------------------------------------------------------------------ admissible verdicts of a validator *)
+(* an admissible verdict never accepts more than [validate] ... *)
+Lemma admissible_verdict_sound t m i : admissible_verdict t m i = true -> i = true -> m = true.
+Proof. unfold admissible_verdict. destruct (ethernet_tuple t), i, m; simpl; congruence. Qed.
+(* ... and on Ethernet tuples (6-byte MAC, everything the dataplane delivers) it IS [validate] *)
+Lemma admissible_verdict_ethernet t m i : ethernet_tuple t = true -> admissible_verdict t m i = true -> i = m.
+Proof. unfold admissible_verdict. intros ->. destruct i, m; simpl; congruence. Qed.
+Lemma validate_is_admissible t m : admissible_verdict t m m = true.
+Proof. unfold admissible_verdict. destruct (ethernet_tuple t), m; reflexivity. Qed.
+
+(* soundness for EVERY validator whose verdicts are admissible (e.g. one that also refuses non-Ethernet MACs) *)
+Lemma admissible_validator_sound H (val' : Z -> Z -> bytes -> tuple -> bool) :
+  (forall ttl now c t, admissible_verdict t (validate H ttl now c t) (val' ttl now c t) = true) ->
+  forall ttl now c t issued,
+  (firstn 32 c = H (macd t c) -> In (macd t c) (map enc_issue issued)) ->
+  Forall wf_issue issued -> wf_tuple t ->
+  val' ttl now c t = true ->
+  exists ts, In (t, ts) issued /\ (now - Z.of_N ts * ns_per_s <= ttl)%Z /\ skipn 32 c = put32 ts.
+Proof.
+  intros Hadm ttl now c t issued Hunf Hwf Hwt Hv. eapply cookie_sound; eauto.
+  eapply admissible_verdict_sound; [apply Hadm | exact Hv].
+Qed.
